@@ -27,6 +27,7 @@ RULE = ('one evaluation = one seeded run: a sequence of 10-80 calls f(*args, **k
         'call, the execution counter with the expiry rule, and expire=0 must leave the cache empty; stampede runs use 2-3 concurrent '
         'callers under the seeded scheduler with a slow function on the virtual clock; non-trivial = at least one cache hit; '
         'distinct = SHA-256 of the case / event log')
+RULE += ' ' + 'The argument alphabet includes long (2 KB) str / bytes arguments in pairs that agree in length, first and last kilobyte, byte sum and Adler-32.'
 ASSUMPTIONS = ['the probe function ignores the arguments listed in `ignore` (a function whose result depends on ignored arguments is outside the contract)',
                'without typed=True, numerically equal arguments (1, 1.0, True) may or may not share an entry; results are compared with ==']
 PROBES = ('hits', 'expired_recompute', 'stampede_threads', 'typed_runs', 'ignore_runs', 'functions', 'raising_calls', 'falsy_results', 'keys_compared_across_interpreters')
@@ -39,6 +40,12 @@ LEVEL_NOTE = 'trusted: simulator kernel and clock, the probe function as the spe
 ALPHA = [1, {'f': '1.0'}, True, None, 'a', 'x', 2, {'t': [1]}, {'i': str(2 ** 53)}, {'i': str(2 ** 53 + 1)}, {'f': '9007199254740992.0'}, 0, {'f': '-0.0'},
          # text that spells another argument, or carries a separator a flattened key might use
          '1', 'None', 'True', '1.0', 'a:b', 'b:c', ':', 'a,b', "('a',)"]
+# long arguments (documents, rendered pages): pairs of equal length that agree in their first and last kilobyte, in their
+# length and in the usual cheap checksums (three adjacent characters changed by +1, -2, +1 leave Adler-32 and the byte sum as
+# they were), or that differ in the very last / very first character only
+_PAD = 'lorem ipsum ' * 170
+ALPHA += ['TOTAL: 131 ' + _PAD, 'TOTAL: 212 ' + _PAD, _PAD + ' page 131 ' + _PAD, _PAD + ' page 212 ' + _PAD,
+          _PAD + 'a', _PAD + 'b', 'a' + _PAD, {'b': ('aca' + 'z' * 1500).encode().hex()}, {'b': ('bab' + 'z' * 1500).encode().hex()}]
 KW = ['a', 'x', 'b']
 
 
